@@ -31,29 +31,29 @@ Record tpar := {
 Record tstate := {
   us : ustate;
   now : Z;
-  t_h : Z;               (* when the helper entered its present location *)
-  t_ctx : option Z;      (* when the context was seen done *)
-  t_exit : option Z;     (* when the process exited *)
-  t_wrecv : option Z;    (* when cmd.Wait returned and the waiter got to <-errc *)
-  t_sig : option Z;      (* when Signal(interrupt) was called on a process not yet reaped *)
-  t_arm : option Z;      (* when the kill timer was armed *)
-  t_fire : option Z;     (* when the helper's select saw timer.C *)
-  t_kill : option Z;     (* when Kill was called *)
-  t_ret : option Z       (* when the value was passed on errc: waitOrStop returns *)
+  at_h : Z;               (* when the helper entered its present location *)
+  at_ctx : option Z;      (* when the context was seen done *)
+  at_exit : option Z;     (* when the process exited *)
+  at_wrecv : option Z;    (* when cmd.Wait returned and the waiter got to <-errc *)
+  at_sig : option Z;      (* when Signal(interrupt) was called on a process not yet reaped *)
+  at_arm : option Z;      (* when the kill timer was armed *)
+  at_fire : option Z;     (* when the helper's select saw timer.C *)
+  at_kill : option Z;     (* when Kill was called *)
+  at_ret : option Z       (* when the value was passed on errc: waitOrStop returns *)
 }.
 
 Definition tinit : tstate :=
-  {| us := uinit; now := 0; t_h := 0; t_ctx := None; t_exit := None; t_wrecv := None; t_sig := None;
-     t_arm := None; t_fire := None; t_kill := None; t_ret := None |}.
+  {| us := uinit; now := 0; at_h := 0; at_ctx := None; at_exit := None; at_wrecv := None; at_sig := None;
+     at_arm := None; at_fire := None; at_kill := None; at_ret := None |}.
 
 (* the earliest moment an event of the environment may happen *)
 Definition time_guard (par : tpar) (l : ulabel) (s : tstate) : bool :=
   match l with
   | LCtxFire => pC par <=? now s
   | LSelfExit => pE par <=? now s
-  | LIntExit => match t_sig s with Some ts => ts + pD par <=? now s | None => false end
-  | LKillExit => match t_kill s with Some tk => tk <=? now s | None => false end
-  | LTimerFire => match t_arm s with Some ta => ta + pK par <=? now s | None => false end
+  | LIntExit => match at_sig s with Some ts => ts + pD par <=? now s | None => false end
+  | LKillExit => match at_kill s with Some tk => tk <=? now s | None => false end
+  | LTimerFire => match at_arm s with Some ta => ta + pK par <=? now s | None => false end
   | _ => true
   end.
 
@@ -65,33 +65,33 @@ Definition stamp (l : ulabel) (s : tstate) (u' : ustate) : tstate :=
   let n := now s in
   match l with
   | LCtxFire =>
-      {| us := u'; now := n; t_h := t_h s; t_ctx := Some n; t_exit := t_exit s; t_wrecv := t_wrecv s; t_sig := t_sig s;
-         t_arm := t_arm s; t_fire := t_fire s; t_kill := t_kill s; t_ret := t_ret s |}
+      {| us := u'; now := n; at_h := at_h s; at_ctx := Some n; at_exit := at_exit s; at_wrecv := at_wrecv s; at_sig := at_sig s;
+         at_arm := at_arm s; at_fire := at_fire s; at_kill := at_kill s; at_ret := at_ret s |}
   | LSelfExit | LIntExit | LKillExit =>
-      {| us := u'; now := n; t_h := t_h s; t_ctx := t_ctx s; t_exit := Some n; t_wrecv := t_wrecv s; t_sig := t_sig s;
-         t_arm := t_arm s; t_fire := t_fire s; t_kill := t_kill s; t_ret := t_ret s |}
+      {| us := u'; now := n; at_h := at_h s; at_ctx := at_ctx s; at_exit := Some n; at_wrecv := at_wrecv s; at_sig := at_sig s;
+         at_arm := at_arm s; at_fire := at_fire s; at_kill := at_kill s; at_ret := at_ret s |}
   | LTimerFire =>
-      {| us := u'; now := n; t_h := t_h s; t_ctx := t_ctx s; t_exit := t_exit s; t_wrecv := t_wrecv s; t_sig := t_sig s;
-         t_arm := t_arm s; t_fire := Some n; t_kill := t_kill s; t_ret := t_ret s |}
+      {| us := u'; now := n; at_h := at_h s; at_ctx := at_ctx s; at_exit := at_exit s; at_wrecv := at_wrecv s; at_sig := at_sig s;
+         at_arm := at_arm s; at_fire := Some n; at_kill := at_kill s; at_ret := at_ret s |}
   | LWaitRet =>
-      {| us := u'; now := n; t_h := t_h s; t_ctx := t_ctx s; t_exit := t_exit s; t_wrecv := Some n; t_sig := t_sig s;
-         t_arm := t_arm s; t_fire := t_fire s; t_kill := t_kill s; t_ret := t_ret s |}
+      {| us := u'; now := n; at_h := at_h s; at_ctx := at_ctx s; at_exit := at_exit s; at_wrecv := Some n; at_sig := at_sig s;
+         at_arm := at_arm s; at_fire := at_fire s; at_kill := at_kill s; at_ret := at_ret s |}
   | LRendezvous =>
-      {| us := u'; now := n; t_h := n; t_ctx := t_ctx s; t_exit := t_exit s; t_wrecv := t_wrecv s; t_sig := t_sig s;
-         t_arm := t_arm s; t_fire := t_fire s; t_kill := t_kill s; t_ret := Some n |}
+      {| us := u'; now := n; at_h := n; at_ctx := at_ctx s; at_exit := at_exit s; at_wrecv := at_wrecv s; at_sig := at_sig s;
+         at_arm := at_arm s; at_fire := at_fire s; at_kill := at_kill s; at_ret := Some n |}
   | LSelCtx | LSelTimer =>
-      {| us := u'; now := n; t_h := n; t_ctx := t_ctx s; t_exit := t_exit s; t_wrecv := t_wrecv s; t_sig := t_sig s;
-         t_arm := t_arm s; t_fire := t_fire s; t_kill := t_kill s; t_ret := t_ret s |}
+      {| us := u'; now := n; at_h := n; at_ctx := at_ctx s; at_exit := at_exit s; at_wrecv := at_wrecv s; at_sig := at_sig s;
+         at_arm := at_arm s; at_fire := at_fire s; at_kill := at_kill s; at_ret := at_ret s |}
   | LSignal =>
-      {| us := u'; now := n; t_h := n; t_ctx := t_ctx s; t_exit := t_exit s; t_wrecv := t_wrecv s;
-         t_sig := if is_after_sig (uh u') then Some n else t_sig s;
-         t_arm := t_arm s; t_fire := t_fire s; t_kill := t_kill s; t_ret := t_ret s |}
+      {| us := u'; now := n; at_h := n; at_ctx := at_ctx s; at_exit := at_exit s; at_wrecv := at_wrecv s;
+         at_sig := if is_after_sig (uh u') then Some n else at_sig s;
+         at_arm := at_arm s; at_fire := at_fire s; at_kill := at_kill s; at_ret := at_ret s |}
   | LArm =>
-      {| us := u'; now := n; t_h := n; t_ctx := t_ctx s; t_exit := t_exit s; t_wrecv := t_wrecv s; t_sig := t_sig s;
-         t_arm := if is_armed (utm u') then Some n else t_arm s; t_fire := t_fire s; t_kill := t_kill s; t_ret := t_ret s |}
+      {| us := u'; now := n; at_h := n; at_ctx := at_ctx s; at_exit := at_exit s; at_wrecv := at_wrecv s; at_sig := at_sig s;
+         at_arm := if is_armed (utm u') then Some n else at_arm s; at_fire := at_fire s; at_kill := at_kill s; at_ret := at_ret s |}
   | LKill =>
-      {| us := u'; now := n; t_h := n; t_ctx := t_ctx s; t_exit := t_exit s; t_wrecv := t_wrecv s; t_sig := t_sig s;
-         t_arm := t_arm s; t_fire := t_fire s; t_kill := Some n; t_ret := t_ret s |}
+      {| us := u'; now := n; at_h := n; at_ctx := at_ctx s; at_exit := at_exit s; at_wrecv := at_wrecv s; at_sig := at_sig s;
+         at_arm := at_arm s; at_fire := at_fire s; at_kill := Some n; at_ret := at_ret s |}
   end.
 
 Definition tdisc (par : tpar) (l : ulabel) (s : tstate) : option tstate :=
@@ -109,15 +109,15 @@ Definition obligations (par : tpar) (s : tstate) : list Z :=
   let u := us s in let p := pu par in let sg := psig par in
   (if has_ctx p && negb (uctx u) then [pC par + sg] else []) ++
   (if self_exit p && is_prun (upr u) then [pE par + sg] else []) ++
-  (if int_exit p && is_prun (upr u) && uintr u then opt_list (t_sig s) (fun ts => ts + pD par + sg) else []) ++
-  (if is_prun (upr u) && ukil u then opt_list (t_kill s) (fun tk => tk + sg) else []) ++
-  (if is_armed (utm u) then opt_list (t_arm s) (fun ta => ta + pK par + sg) else []) ++
-  (match uw u, upr u with WWait, PZombie => opt_list (t_exit s) (fun te => te + sg) | _, _ => [] end) ++
-  (match uh u with HSig | HAfterSig | HKill => [t_h s + sg] | _ => [] end) ++
-  (match uh u with HSel1 => if uctx u then opt_list (t_ctx s) (fun tc => tc + sg) else [] | _ => [] end) ++
-  (match uh u, utm u with HSel2, TFired => opt_list (t_fire s) (fun tf => tf + sg) | _, _ => [] end) ++
+  (if int_exit p && is_prun (upr u) && uintr u then opt_list (at_sig s) (fun ts => ts + pD par + sg) else []) ++
+  (if is_prun (upr u) && ukil u then opt_list (at_kill s) (fun tk => tk + sg) else []) ++
+  (if is_armed (utm u) then opt_list (at_arm s) (fun ta => ta + pK par + sg) else []) ++
+  (match uw u, upr u with WWait, PZombie => opt_list (at_exit s) (fun te => te + sg) | _, _ => [] end) ++
+  (match uh u with HSig | HAfterSig | HKill => [at_h s + sg] | _ => [] end) ++
+  (match uh u with HSel1 => if uctx u then opt_list (at_ctx s) (fun tc => tc + sg) else [] | _ => [] end) ++
+  (match uh u, utm u with HSel2, TFired => opt_list (at_fire s) (fun tf => tf + sg) | _, _ => [] end) ++
   (match uw u with
-   | WRecv => if send_ready (uh u) then opt_list (t_wrecv s) (fun tw => Z.max tw (t_h s) + sg) else []
+   | WRecv => if send_ready (uh u) then opt_list (at_wrecv s) (fun tw => Z.max tw (at_h s) + sg) else []
    | _ => []
    end).
 
@@ -125,8 +125,8 @@ Definition can_delay (par : tpar) (s : tstate) (d : Z) : bool :=
   (0 <=? d) && forallb (fun dl => now s + d <=? dl) (obligations par s).
 
 Definition advance (s : tstate) (d : Z) : tstate :=
-  {| us := us s; now := now s + d; t_h := t_h s; t_ctx := t_ctx s; t_exit := t_exit s; t_wrecv := t_wrecv s;
-     t_sig := t_sig s; t_arm := t_arm s; t_fire := t_fire s; t_kill := t_kill s; t_ret := t_ret s |}.
+  {| us := us s; now := now s + d; at_h := at_h s; at_ctx := at_ctx s; at_exit := at_exit s; at_wrecv := at_wrecv s;
+     at_sig := at_sig s; at_arm := at_arm s; at_fire := at_fire s; at_kill := at_kill s; at_ret := at_ret s |}.
 
 Inductive tmove := MDisc (l : ulabel) | MDelay (d : Z).
 
